@@ -36,6 +36,10 @@ class FixedIndex(IndexBase):
         """Get new args."""
         return (self._value,)
 
+    def __reduce__(self):
+        """Pickle by value only: the cached hash is process specific."""
+        return (FixedIndex, (self._value,))
+
     def __new__(cls, value):
         """Create new FixedIndex."""
         self = FixedIndex._cache.get(value)
